@@ -20,6 +20,7 @@ CONSTANTS
   GInds,        \* indentation of the group list under `groups:`
   RSteps,       \* indentation of the rule list relative to `rules:`
   GI0, RS0,     \* the two indentations in the base document
+  BaseVar,      \* field order of the base document: 0 usual; 1 `for` / `expr` last; 2 `keep_firing_for` last
   MaxEdits,     \* number of edit actions applied to the base layout
   Acts,         \* enabled edit actions
   Focus,        \* field names whose scalar "scalar" edits may restyle
@@ -80,11 +81,18 @@ Pick(S) == IF Sim /\ S # {} THEN {RandomElement(S)} ELSE S
 
 -----------------------------------------------------------------------------
 Sc(cls)  == [ScDef EXCEPT !.cls = cls]
-Rule1 == [items |-> <<ScalarItem("alert", Sc("one")), ScalarItem("expr", Sc("spaces")), ScalarItem("for", ScDef),
-                      MapItem("labels", FALSE, 2, <<KV("severity", ScDef, Sc("one"))>>),
-                      MapItem("annotations", FALSE, 2, <<KV("summary", ScDef, Sc("spaces"))>>)>>]
-Rule2 == [items |-> <<ScalarItem("record", Sc("one")), ScalarItem("expr", Sc("spaces")),
-                      MapItem("labels", FALSE, 2, <<KV("team", ScDef, Sc("one"))>>)>>]
+FAlert == ScalarItem("alert", Sc("one"))
+FExpr  == ScalarItem("expr", Sc("spaces"))
+FFor   == ScalarItem("for", ScDef)
+FKff   == ScalarItem("keep_firing_for", ScDef)
+FLab1  == MapItem("labels", FALSE, 2, <<KV("severity", ScDef, Sc("one"))>>)
+FAnn   == MapItem("annotations", FALSE, 2, <<KV("summary", ScDef, Sc("spaces"))>>)
+FRec   == ScalarItem("record", Sc("one"))
+FLab2  == MapItem("labels", FALSE, 2, <<KV("team", ScDef, Sc("one"))>>)
+Rule1 == [items |-> CASE BaseVar = 1 -> <<FAlert, FExpr, FLab1, FAnn, FFor>>
+                      [] BaseVar = 2 -> <<FAlert, FExpr, FFor, FLab1, FAnn, FKff>>
+                      [] OTHER       -> <<FAlert, FExpr, FFor, FLab1, FAnn>>]
+Rule2 == [items |-> IF BaseVar = 1 THEN <<FRec, FLab2, FExpr>> ELSE <<FRec, FExpr, FLab2>>]
 Base  == [base |-> "doc", pre |-> <<>>, gi |-> GI0, rstep |-> RS0, rules |-> <<Rule1, Rule2>>, wrap |-> WrNone]
 
 Init == lay = Base /\ n = 0
